@@ -10,7 +10,7 @@ subprocess.run(["/venv/bin/python", "-m", "pytest", "-q", "-p", "no:cacheprovide
 passed = set()
 for tc in ET.parse(out).getroot().iter("testcase"):
     if not any(ch.tag in ("failure", "error", "skipped") for ch in tc):
-        passed.add(tc.get("classname") + "::" + tc.get("name"))
+        passed.add((tc.get("classname") + "::" + tc.get("name")).replace(repo, "/repo"))
 want = set(json.load(open("/root/.vp/BASELINE.json"))["stable_pass"])
 missing = sorted(want - passed)
 print("stable_pass: %d, passing now: %d, missing: %d" % (len(want), len(want & passed), len(missing)))
